@@ -164,8 +164,9 @@ class NonlocalGame:
             num_bob_inputs,
         ) = self.pred_mat.shape
 
-        # Create a copy of pred_mat to avoid in-place modification
-        pred_mat_copy = np.copy(self.pred_mat)
+        # Create a copy of pred_mat to avoid in-place modification. The copy holds the predicate weighted by the
+        # question probabilities, so it must be able to hold fractions even if the predicate is an integer array.
+        pred_mat_copy = np.array(self.pred_mat, dtype=np.result_type(self.pred_mat, np.float64))
 
         for x_alice_in in range(num_alice_inputs):
             for y_bob_in in range(num_bob_inputs):
